@@ -144,7 +144,7 @@ def DECOY_HEADER(box, velz):
     return dict(BoxSizeHMpc=float(box) * 0.6736, BoxSizeMpc=float(box), hMpc=0, H0=67.36, VelZSpace_to_Canonical=float(velz) / 3.0, ParticleMassHMsun=2.1e9, ParticleMassMsun=3.1e9, InitialRedshift=99.0, ScaleFactor=1 / 1.5, NP=64**3)
 
 
-def make_tree(rng, nslab=3, slab_inds=None, halos_per_slab=None, box=500.0, velz=1234.5, ppd=64, nprev=2, compression=None, gap_prob=0.5, zero_part_prob=0.15, cleaned_away_prob=0.15, merge_prob=0.4, trailing=True, sim='SimA', smallratio=False, root=None, max_np=12, int_header=False, clean_layout=1, big_ints=False, giant=None, blsc_block=None):
+def make_tree(rng, nslab=3, slab_inds=None, halos_per_slab=None, box=500.0, velz=1234.5, ppd=64, nprev=2, compression=None, gap_prob=0.5, zero_part_prob=0.15, cleaned_away_prob=0.15, merge_prob=0.4, trailing=True, sim='SimA', smallratio=False, root=None, max_np=12, int_header=False, clean_layout=1, big_ints=False, giant=None, blsc_block=None, ppd_form=None):
     root = root or tempfile.mkdtemp(prefix='verif_cat_')
     if slab_inds is None:
         slab_inds = list(range(nslab))
@@ -165,7 +165,7 @@ def make_tree(rng, nslab=3, slab_inds=None, halos_per_slab=None, box=500.0, velz
         cleanroot = os.path.join(root, 'cleaning')
     sub_hi, sub_rp = ((), ()) if clean_layout == 4 else (('cleaned_halo_info',), ('cleaned_rvpid',))
     # headers written by other tools may hold integral values as ints
-    header = dict(BoxSize=(int(box) if int_header and float(box).is_integer() else float(box)), VelZSpace_to_kms=(int(velz) if int_header and float(velz).is_integer() else float(velz)), ppd=float(ppd), SimName=sim, Redshift=0.5, OutputType='GroupOutput', ParticleSubsampleA=0.03, ParticleSubsampleB=0.07, CPD=15, **DECOY_HEADER(box, velz))
+    header = dict(BoxSize=(int(box) if int_header and float(box).is_integer() else float(box)), VelZSpace_to_kms=(int(velz) if int_header and float(velz).is_integer() else float(velz)), ppd=(float(ppd**3) ** (1 / 3.0) if ppd_form == 'cube-root' else float(ppd)), SimName=sim, Redshift=0.5, OutputType='GroupOutput', ParticleSubsampleA=0.03, ParticleSubsampleB=0.07, CPD=15, **DECOY_HEADER(box, velz))
     cheader = dict(header, TimeSliceRedshiftsPrev=[0.6 + 0.1 * i for i in range(nprev)])
     serial = Serial()
     truth = dict(root=root, path=zdir, cleandir=cleanroot, clean_layout=clean_layout, header=header, slab_inds=list(slab_inds), slabs={}, box=box, velz=velz, ppd=ppd, nprev=nprev, sim=sim)
@@ -341,7 +341,7 @@ LC_EXTRA = dict(
 )
 
 
-def make_lc_tree(rng, H=40, box=2000.0, velz=2087.0, ppd=6912, compression=None, gap_prob=0.4, smallratio=False, nprev=3, big_ints=False):
+def make_lc_tree(rng, H=40, box=2000.0, velz=2087.0, ppd=6912, compression=None, gap_prob=0.4, smallratio=False, nprev=3, big_ints=False, unordered=False):
     """Light-cone layout: one lc_halo_info.asdf + lc_pid_rv.asdf (already unpacked pos/vel/pid)."""
     root = tempfile.mkdtemp(prefix='verif_lc_')
     zdir = os.path.join(root, 'halo_light_cones', 'SimLC', 'z0.500')
@@ -373,6 +373,12 @@ def make_lc_tree(rng, H=40, box=2000.0, velz=2087.0, ppd=6912, compression=None,
         start[h] = off
         off += int(npout[h])
     P = off + 3
+    if unordered and H >= 2:
+        # halo rows stored in another order than their particle ranges (rows are ordered by light-cone crossing, particles by file),
+        # the last row a halo without particles recorded with start 0
+        perm = np.random.default_rng(int(H) * 7919 + int(P)).permutation(H)
+        start, npout = start[perm], npout[perm]
+        start[-1], npout[-1] = 0, 0
     raw['npstartA'] = start
     raw['npoutA'] = npout
     if big_ints:
